@@ -289,7 +289,7 @@ def run(ctx, chk):
                        ' -- not the checked result of one parse of the attribute: an unreadable value would still be used'))
                 pn = parses[0][2][1] if parses and isinstance(parses[0][2][1], int) else None
                 whole = [n for n, name, ef in info['calls'] if pn is not None and qn < n < pn and
-                         (name.endswith(('fs::read_to_string', 'fs::read')) or name.split('::')[-1] in ('read_to_string', 'read_to_end'))]
+                         (name.endswith(('fs::read_to_string', 'fs::read')) or name.split('::')[-1] in ('read_to_string', 'read_to_end', 'read_line', 'lines'))]
                 bounded = [(n, name) for n, name, ef in info['calls'] if pn is not None and qn < n < pn and
                            name.split('::')[-1] in ('read', 'read_exact', 'pread', 'read_at', 'read_exact_at', 'read_vectored', 'take') and
                            ('io::Read' in name or name.startswith(('libc::', 'nix::')) or 'File' in name)]
